@@ -204,7 +204,7 @@ pub fn subchecks(tier: Tier) -> Vec<SubCheck> {
         generated(
             "strings_vs_definitions",
             "byte strings (random, low-entropy, periodic, zero runs, trigger words incl. the 0xffffffff word): RollingHash::value() after every prefix vs sum + position-weighted sum + shift-5-xor fold over the trailing window; window independence under a different prefix; PartialFNVHash vs low six bits of 32-bit FNV-1; slice / iterator / byte / += slice / += byte / += array forms agree; non-trivial = strings of >= 7 bytes; distinct by bytes",
-            tier.pick(300_000, 4_000_000),
+            tier.pick(3_000_000, 30_000_000),
             move || strategy(wt_seed(), tier),
             eval,
         ),
